@@ -114,6 +114,11 @@ def function(
     )
 
     function_def: FunctionDef = deepcopy(function_def)
+    # positional-only parameters are parameters like the others (`defaults` spans both lists)
+    function_def.args.args = (
+        getattr(function_def.args, "posonlyargs", []) + function_def.args.args
+    )
+    function_def.args.posonlyargs = []
     function_def.args.args = (
         function_def.args.args if found_type == "static" else function_def.args.args[1:]
     )
